@@ -193,6 +193,10 @@ func Bindings(g *groups.Info, seed int64, n int) []Binding {
 		}
 		out = append(out, b)
 	}
+	// the empty byte string given to SetBytes is always among the bindings (boundary of "any length")
+	if n >= 3 {
+		out[n-1] = bytePool[0]
+	}
 	for i := range out {
 		out[i].Codec = rng.Intn(3)
 		out[i].HSeed = fmt.Sprintf("H-%d-%d", seed, i)
